@@ -659,6 +659,48 @@ def run_c15_coap(case, R):
     vtime.run(main)
 
 
+def run_c15_ip(case, R):
+    """list_pairings over IP: the TLV reply (ids and keys rich in CR / LF bytes) reaches the controller in two reads / frames cut at every offset,
+    with Content-Length or chunked framing; the decoded list is what the accessory holds."""
+    R.nt()
+    R.cls("ip-list-pairings", "chunked" if case.get("chunked") else "content-length")
+
+    async def main(loop):
+        from vlib.ipworld import IpWorld
+        w = IpWorld(loop, k=case.get("k", 0))
+        try:
+            for j in range(case["n"]):
+                w.ident.controllers[(b"\r\nctl-%d\n\r" % j)] = bytes([13, 10, 13, 13, 10, 10, j, 0x0d]) * 4
+            p = w.pairing
+            await p.list_accessories_and_characteristics()
+            w.acc.reply_chunked = bool(case.get("chunked"))
+            w.acc.reply_cut = case["cut"]
+            try:
+                got = await asyncio.wait_for(p.list_pairings(), 40)
+            except Exception as e:  # noqa: BLE001
+                R.fail("C15.roundtrip", f"IP list_pairings, reply cut at {case['cut']} ({'chunked' if case.get('chunked') else 'content-length'}): {type(e).__name__}: {e}")
+                return
+            w.acc.reply_cut = None
+            want = sorted((cid.decode("latin-1"), pk.hex()) for cid, pk in w.ident.controllers.items())
+            have = sorted((g["pairingId"].encode("utf-8", "surrogateescape").decode("latin-1") if isinstance(g["pairingId"], str) else g["pairingId"], g["publicKey"]) for g in got)
+            if [h[1] for h in have] != [x[1] for x in want] and sorted(h[1] for h in have) != sorted(x[1] for x in want):
+                R.fail("C15.roundtrip", f"IP list_pairings, reply cut at {case['cut']}: keys {sorted(h[1] for h in have)} expected {sorted(x[1] for x in want)}")
+            await p.shutdown()
+        finally:
+            w.restore()
+    vtime.run(main)
+
+
+def enum_c15_ip(tier):
+    for chunked in (0, 1):
+        for n in (1, 3):
+            for cut in list(range(1, 330 if n == 3 else 170, 1 if tier == "thorough" else 2)) + [-k for k in range(1, 12)]:
+                yield {"n": n, "cut": cut, "chunked": chunked}
+
+
+C15_IP_LAYERS = [Layer("ip-list-pairings-cuts", run_c15_ip, enumerate=enum_c15_ip, exhaustive=True,
+                       space="list_pairings replies (2 / 4 controllers, ids and keys full of CR / LF) x Content-Length / chunked x cut at every (quick: every second) offset", min_nontrivial=100)]
+
 C15_COAP_LAYERS = [Layer("coap-list-pairings", run_c15_coap, enumerate=lambda tier: ({"n": n, "idlen": l} for n in range(1, 9) for l in (4, 20, 36)), exhaustive=True,
                          space="list_pairings over CoAP with 1..8 controllers x 3 identifier lengths (pairing TLVs of 45 to 700 bytes inside the HAP-Param Value)", min_nontrivial=5)]
 
